@@ -66,8 +66,16 @@ func c20bRun(layout []string, bad int, badKind string) (sig, what, outcome strin
 			switch badKind {
 			case "exit1":
 				answer = "exit 1"
+			case "exit127+stderr":
+				answer = "echo 'kubectl: command not found' >&2; exit 127"
+			case "exit2+stdout+stderr":
+				answer = `echo '{"configVersion":"v1"}'; echo 'something went wrong' >&2; exit 2`
 			case "invalid":
 				answer = `echo '{"configVersion":"v1","noSuchBinding":true}'`
+			case "invalid+stderr":
+				answer = `echo 'warning: deprecated' >&2; echo '{"configVersion":"v1","noSuchBinding":true}'`
+			case "not-json-or-yaml":
+				answer = `echo '{"configVersion": "v1", '`
 			}
 		}
 		write(rel, 0o755, "#!/bin/sh\nif [ \"$1\" = \"--config\" ]; then echo \"$0\" >> "+logf+"; "+answer+"; exit $?; fi\nexit 0\n")
@@ -135,7 +143,8 @@ func TestVerifC20b(t *testing.T) {
 	r := vres.New("c20b")
 	defer r.Finish()
 	r.Bound("layouts", len(c20bLayouts))
-	r.Bound("bad_config_kinds", []string{"exit1", "invalid"})
+	kinds := []string{"exit1", "invalid", "exit127+stderr", "exit2+stdout+stderr", "invalid+stderr", "not-json-or-yaml"}
+	r.Bound("bad_config_kinds", kinds)
 	var ord int64
 	for li, layout := range c20bLayouts {
 		// every permutation of the creation order matters not; every choice of the failing hook does
@@ -145,7 +154,9 @@ func TestVerifC20b(t *testing.T) {
 		}
 		cases := []cs{{-1, ""}}
 		for i := range layout {
-			cases = append(cases, cs{i, "exit1"}, cs{i, "invalid"})
+			for _, k := range kinds {
+				cases = append(cases, cs{i, k})
+			}
 		}
 		for _, c := range cases {
 			ord++
